@@ -43,6 +43,15 @@ def short(path):
     return ''.join(out)
 
 
+class Edge(tuple):
+    """CFG edge (from, to); `cond` = block of the definition of the switched boolean that this edge is conditional on
+    (None = unconditional). Compares equal to the plain tuple, unpacks as two values."""
+    def __new__(cls, a, b, cond=None):
+        e = super().__new__(cls, (a, b))
+        e.cond = cond
+        return e
+
+
 class Body:
     def __init__(self, j, facts):
         self.j = j
@@ -114,13 +123,89 @@ class Body:
             self._pred = p
         return self._pred[b]
 
+    def _bool_locals(self):
+        if getattr(self, '_bl', None) is None:
+            self._bl = {i for i, l in enumerate(self.locals) if l['ty'] == 'bool'}
+        return self._bl
+
+    def _flow_block(self, b, env):
+        """Propagate known boolean constants through block b; returns (env_after, feasible successor list)."""
+        bl = self._bool_locals()
+        env = dict(env)
+        blk = self.blocks[b]
+        for st in blk['stmts']:
+            if st['k'] != 'assign' or st['p']['pr']:
+                continue
+            l = st['p']['l']
+            if l not in bl:
+                continue
+            r = st['r']
+            v = None
+            if r['k'] == 'use':
+                a = r['a']
+                if a['k'] == 'const' and a.get('val') is not None:
+                    v = a['val']
+                elif a['k'] in ('copy', 'move') and not a['p']['pr'] and a['p']['l'] in env:
+                    v = env[a['p']['l']]
+            elif r['k'] == 'un' and r['op'] == 'Not' and r['a']['k'] in ('copy', 'move') and not r['a']['p']['pr'] and r['a']['p']['l'] in env:
+                v = 0 if env[r['a']['p']['l']] else 1
+            if v is None:
+                env[l] = ('d', b)
+            else:
+                env[l] = v
+        t = blk['term']
+        if t['k'] == 'call' and not t['dest']['pr']:
+            env.pop(t['dest']['l'], None)
+        succs = [tg for _, tg in self.edges(b)]
+        origin = None
+        if t['k'] == 'switch' and t['discr']['k'] in ('copy', 'move') and not t['discr']['p']['pr'] and t['discr']['p']['l'] in env:
+            v = env[t['discr']['p']['l']]
+            if isinstance(v, tuple):
+                origin = v[1]
+            else:
+                hit = [tg for val, tg in t['arms'] if val == v]
+                succs = hit[:1] if hit else [t['otherwise']]
+        return env, succs, origin
+
     def reach(self, src, cut_edges=(), cut_blocks=(), fwd=True):
         """Blocks reachable from src (a block or iterable of blocks). cut_edges: set of (from, to);
-        cut_blocks: blocks that may not be *passed through* (they can be reached, not left)."""
-        cut_edges = set(cut_edges)
+        cut_blocks: blocks that may not be *passed through* (they can be reached, not left).
+        Forward reachability is path-sensitive for boolean locals that were assigned literals on the path
+        (`_r = const true; …; switchInt(_r)`), which only removes infeasible paths."""
+        cond_cuts = {}
+        plain = set()
+        for e in cut_edges:
+            c = getattr(e, 'cond', None)
+            if c is None:
+                plain.add((e[0], e[1]))
+            else:
+                cond_cuts.setdefault((e[0], e[1]), set()).add(c)
+        cut_edges = plain
         cut_blocks = set(cut_blocks)
         if isinstance(src, int):
             src = [src]
+        if fwd:
+            seen_states = set()
+            seen = set(src)
+            st = [(b, ()) for b in src]
+            while st:
+                b, envk = st.pop()
+                if (b, envk) in seen_states:
+                    continue
+                seen_states.add((b, envk))
+                if b in cut_blocks:
+                    continue
+                env, succs, origin = self._flow_block(b, dict(envk))
+                ek = tuple(sorted(env.items(), key=lambda kv: kv[0]))
+                for s in succs:
+                    if (b, s) in cut_edges:
+                        continue
+                    if origin is not None and origin in cond_cuts.get((b, s), ()):
+                        continue
+                    seen.add(s)
+                    if (s, ek) not in seen_states:
+                        st.append((s, ek))
+            return seen
         seen = set(src)
         st = list(src)
         while st:
@@ -494,6 +579,77 @@ class Body:
                 tr, f = f, tr
             return ('bool', term, tr, f)
         return ('int', term, list(t['arms']), t['otherwise'])
+
+    def switch_discr_type(self, b):
+        """Type of the place whose discriminant a switch tests (None if the switch is not on a discriminant)."""
+        t = self.blocks[b]['term']
+        if t['k'] != 'switch' or t['discr']['k'] not in ('copy', 'move') or t['discr']['p']['pr']:
+            return None
+        ds = self.defs().get(t['discr']['p']['l'], [])
+        for db, si, kind, obj in ds:
+            if kind == 'assign' and obj['r']['k'] == 'discr':
+                return obj['r']['of']
+        return None
+
+    def switch_root(self, b):
+        """For a switch on a boolean local: follow single-definition copies back to the local that carries the value.
+        Returns (root_local, negated) or None."""
+        t = self.blocks[b]['term']
+        if t['k'] != 'switch' or t['discr']['k'] not in ('copy', 'move') or t['discr']['p']['pr']:
+            return None
+        l = t['discr']['p']['l']
+        neg = False
+        for _ in range(20):
+            ds = self.defs().get(l, [])
+            if len(ds) != 1 or ds[0][2] != 'assign':
+                break
+            r = ds[0][3]['r']
+            if r['k'] == 'use' and r['a']['k'] in ('copy', 'move') and not r['a']['p']['pr']:
+                l = r['a']['p']['l']
+                continue
+            if r['k'] == 'un' and r['op'] == 'Not' and r['a']['k'] in ('copy', 'move') and not r['a']['p']['pr']:
+                l = r['a']['p']['l']
+                neg = not neg
+                continue
+            break
+        return l, neg
+
+    def virtual_conds(self, b):
+        """For a switch on a boolean local with several definitions: [(def_block, cond_term, true_edges, false_edges)] —
+        one entry per non-literal definition; the edges are conditional on that definition reaching the switch."""
+        t = self.blocks[b]['term']
+        if t['k'] != 'switch' or t.get('discr_ty') != 'bool':
+            return []
+        rt = self.switch_root(b)
+        if rt is None:
+            return []
+        l, neg = rt
+        ds = self.defs().get(l, [])
+        if len(ds) < 2:
+            return []
+        f = [tg for v, tg in t['arms'] if v == 0]
+        tr = [tg for v, tg in t['arms'] if v != 0]
+        if f:
+            tr.append(t['otherwise'])
+        else:
+            f.append(t['otherwise'])
+        out = []
+        for db, si, kind, obj in ds:
+            if kind == 'call':
+                term = self.call_term(db, obj)
+            else:
+                r = obj['r']
+                if r['k'] == 'use' and r['a']['k'] == 'const':
+                    continue
+                term = self.rvalue_term(r, 0, db)
+            n2 = neg
+            while term[0] == 'un' and term[1] == 'Not':
+                term = term[2]
+                n2 = not n2
+            te = [Edge(b, x, db) for x in (f if n2 else tr)]
+            fe = [Edge(b, x, db) for x in (tr if n2 else f)]
+            out.append((db, term, te, fe))
+        return out
 
     def switches(self):
         live = self.live_blocks()
